@@ -42,7 +42,8 @@ def _install_hooks(log):
             out.append({"pl": names.get(ps.placement, "Unknown"),
                         "na": bool(ps.ops and ps.ops[0].run_on_npu),
                         "prod": prod, "name": ps.name,
-                        "ops": [str(op.type).replace("Op.", "") for op in ps.ops][:4]})
+                        "ops": [str(op.type).replace("Op.", "") for op in ps.ops][:4],
+                        "opnames": [op.name for op in ps.ops][:4]})
         return out
 
     real_pack = pass_packing.pack_into_passes
